@@ -61,6 +61,36 @@ class Runner:
         U.prev.update(newprev)          # baselines are the dumps from BEFORE the call for every object
         return out
 
+    def _untabled(self, st, ro, recv, mname, aspecs, kspecs):
+        """a chaining call that has no row in the class table of this run (e.g. a method that lost its @builder): there is
+        no model step, but the call is still made under the oracle's eyes - the result is not tracked"""
+        U = self.U
+        if ">" in mname or mname.startswith("_") or not callable(getattr(type(ro), mname, None)):
+            return {"kind": "skip", "why": "%s.%s not in the class table" % (qual(ro), mname)}
+        try:
+            args = [build_arg(x, U) for x in aspecs]
+            kwargs = {k: build_arg(x, U) for k, x in kspecs.items()}
+        except Exception as e:  # noqa
+            return {"kind": "skip", "why": "argument construction: %s" % type(e).__name__}
+        before = self.snapshot()
+        exc = None
+        try:
+            getattr(ro, mname)(*args, **kwargs)
+        except Exception as e:  # noqa
+            exc = type(e).__name__
+        after = self.snapshot()
+        changes = []
+        for key, (r0, a0) in before.items():
+            r1, a1 = after.get(key, (None, None))
+            role = "receiver" if key == recv else "other"
+            if a0 != a1:
+                changes.append({"obj": key, "cls": type(U.objs[key]).__name__, "role": role, "what": "alias", "akind": "alias",
+                                "before": repr(a0), "after": repr(a1)})
+            elif r0 != r1:
+                changes.append({"obj": key, "cls": type(U.objs[key]).__name__, "role": role, "what": "sql", "before": r0, "after": r1})
+        return {"kind": "untabled", "recv": recv, "m": mname, "qualname": "%s.%s" % (type(ro).__name__, mname), "exc": exc,
+                "changes": changes}
+
     def _dead_after_exception(self, copies, rk):
         """the model allocates the copy (and a wrapper for RNew methods) even when the call raises: dead placeholders"""
         if copies:
@@ -101,7 +131,7 @@ class Runner:
         row = self.tab.get(qual(ro))
         m = row["methods"].get(mname) if row else None
         if m is None:
-            return {"kind": "skip", "why": "%s.%s not in the class table" % (qual(ro), mname)}
+            return self._untabled(st, ro, recv, mname, aspecs, kspecs)
         comp = m.get("composite")
         try:
             args = [build_arg(s, U) for s in aspecs]
@@ -276,11 +306,11 @@ class Runner:
                   continue
               cur = U.dump_value(val)
               bd, bv = base_dump(tobj, tg)
-              if kind == "rebind":
+              if kind in ("rebind", "rebind_unset"):
                   fired = is_diff(bd, attr, cur) if not cur[0] else (bd is None or attr not in bd or not bd[attr][0] or bd[attr][1] != cur[1])
                   out_chs.append([bool(fired), cur[0], cur[2]])
               else:
-                  later = any(t2 == tg and a2 == attr and k2 == "rebind" for (t2, k2, a2) in effs[k_ + 1:])
+                  later = any(t2 == tg and a2 == attr and k2 in ("rebind", "rebind_unset") for (t2, k2, a2) in effs[k_ + 1:])
                   if later and bv is not None and attr in bv and (bd is None or attr not in bd or bd[attr][1] != cur[1]):
                       # the in-place write hit the container that was there before a later rebinding
                       ti = U.idx[id(tobj)]
